@@ -38,6 +38,7 @@ import (
 func init() {
 	vDrivers["C14"] = driveProviders
 	vDrivers["C19"] = driveProviders
+	vDrivers["C12"] = driveProvidersRefresh
 }
 
 var vpKey *rsa.PrivateKey
@@ -660,4 +661,79 @@ func vpTemplate(i *vpIdP, doc string) interface{} {
 	r, _ := http.NewRequest(http.MethodGet, "http://x"+p, nil)
 	_, t := i.document(r)
 	return t
+}
+
+// driveProvidersRefresh (C12): every provider implementation's RefreshSession against well-formed answers, on a session
+// as old as the operator's refresh period allows (hours) whose access token has long expired.  A refresh that reports
+// success leaves a session that is USABLE: the tokens are the new ones and the expiry the provider states
+// (expires_in 3600) lies in the future, counted from the refresh and not from the old creation time.
+func driveProvidersRefresh(t *testing.T, out *vEmitter) {
+	var err error
+	if vpKey, err = rsa.GenerateKey(rand.Reader, 2048); err != nil {
+		t.Fatal(err)
+	}
+	logger.SetOutput(io.Discard)
+	logger.SetErrOutput(io.Discard)
+	refreshed := 0
+	for _, pv := range vpProviders() {
+		idp := &vpIdP{hits: map[string]int{}, nonce: "nonce-1"}
+		idp.srv = httptest.NewServer(idp)
+		idp.issuer = idp.srv.URL
+		if pv.name == "entra-id" {
+			idp.issuer = "https://login.microsoftonline.com/tenant-1/v2.0"
+		}
+		p, err := pv.build(idp)
+		if err != nil {
+			idp.srv.Close()
+			t.Fatalf("provider %s cannot be built: %v", pv.name, err)
+		}
+		for _, age := range []time.Duration{2 * time.Minute, 61 * time.Minute, 3 * time.Hour, 26 * time.Hour} {
+			for _, expiredFor := range []time.Duration{-30 * time.Minute, time.Minute, 2 * time.Hour} {
+				s := idp.session()
+				created := time.Now().Add(-age)
+				exp := time.Now().Add(-expiredFor)
+				s.CreatedAt, s.ExpiresOn = &created, &exp
+				oldAT, oldRT := s.AccessToken, s.RefreshToken
+				var ok bool
+				var rerr error
+				var pan interface{}
+				before := time.Now()
+				func() {
+					defer func() { pan = recover() }()
+					ok, rerr = p.RefreshSession(context.Background(), s)
+				}()
+				out.Obs("provider-refresh/"+pv.name, true, vL(vS(pv.name), vI(int64(age/time.Minute)), vI(int64(expiredFor/time.Minute)), vBool(ok), vBool(rerr == nil), vBool(pan != nil)))
+				out.Stat("provider_refresh_calls", 1)
+				det := map[string]interface{}{"provider": pv.name, "session_age_min": int(age / time.Minute), "access_token_expired_for_min": int(expiredFor / time.Minute)}
+				if pan != nil {
+					det["panic"] = fmt.Sprint(pan)
+					out.Violation("refresh/provider-panic", "a provider's RefreshSession panicked on well-formed answers", det)
+					continue
+				}
+				if !ok || rerr != nil {
+					continue // this provider does not refresh (or refused): the loader falls back to validation
+				}
+				refreshed++
+				out.Stat("provider_refresh_succeeded", 1)
+				if s.ExpiresOn != nil {
+					det["expires_in_s_after_refresh"] = int(s.ExpiresOn.Sub(before) / time.Second)
+				}
+				det["access_token_changed"] = s.AccessToken != oldAT
+				det["refresh_token_changed"] = s.RefreshToken != oldRT
+				if s.IsExpired() {
+					out.Violation("refresh/refreshed-session-unusable", "a refresh the provider reported as successful left a session that is already expired: the request that refreshed it is refused and the new tokens never reach the upstream", det)
+				} else if s.ExpiresOn != nil && (s.ExpiresOn.Before(before.Add(40*time.Minute)) || s.ExpiresOn.After(time.Now().Add(70*time.Minute))) {
+					out.Violation("refresh/refreshed-session-expiry", "after a successful refresh the session's expiry is not the lifetime the provider stated (3600 s, tokeninfo 3000 s) counted from the refresh", det)
+				}
+				if s.CreatedAt == nil || s.CreatedAt.Before(before.Add(-5*time.Second)) {
+					// providers re-stamp the session themselves or leave it to the loader; both are fine as long as the expiry is right
+					out.Stat("provider_refresh_left_created_at", 1)
+				}
+			}
+		}
+		idp.srv.Close()
+	}
+	if refreshed == 0 {
+		out.Violation("control/no-provider-refreshed", "no provider refreshed a session: the sweep checks nothing", map[string]interface{}{})
+	}
 }
